@@ -807,6 +807,42 @@ theorem accepted_wireSafe (i : RawInterface) (sys : SysState) (fw : Bool)
     simp only [Bool.and_eq_true, decide_eq_true_eq, List.all_eq_true]
     exact ⟨⟨⟨⟨⟨hh, hp⟩, hrl⟩, hre⟩, hrt⟩, hopts⟩
 
+/-- the source only appends the option for a 48-bit hardware address (regenerated from
+    `(*LLA).Apply`; fails to build on a tree without that test) -/
+theorem gen_lla_requires_ethernet : Gen.Plugin.llaRequiresEthernet = true := by decide
+
+/-- …and for an interface with **any** hardware address (none, 48-bit, or another length), once
+    the `source_lla` plugin only uses a 48-bit one (`normSys true`, the repair of F-19): the
+    hypothesis on the hardware address is discharged, not assumed. -/
+theorem accepted_wireSafe_any_hw (i : RawInterface) (sys : SysState) (fw : Bool)
+    (hwf : Props.C02.wfIface i = true) (hvals : wfVals i)
+    (hdoc : Spec.C02.docInterface i = true) (hadv : i.monitor = false)
+    (hclock : sys.epoch ≤ sys.now)
+    (haddrs : ∀ as, sys.addrs = some as → Props.C14.WF as)
+    (hroutes : ∀ rs, sys.routes = some rs → WFr rs)
+    (hcount : ∀ d ∈ i.rdnss, d.servers.length ≤ 127)
+    (hportal : ∀ u l, i.captivePortal = .ok u l → 1 ≤ l)
+    (ra : RA) (h : Spec.C01.expectedRA i (normSys true sys) fw = some ra) : wireSafe ra = true := by
+  apply accepted_wireSafe i (normSys true sys) fw hwf hvals hdoc hadv
+    (by simpa [normSys] using hclock) ?_ (by simpa [normSys] using haddrs) (by simpa [normSys] using hroutes)
+    hcount hportal ra h
+  intro l m hm
+  simp only [normSys, if_true] at hm
+  cases hmac : sys.mac with
+  | none => simp [hmac] at hm
+  | some p =>
+    simp only [hmac, Option.filter] at hm
+    split at hm
+    · rename_i hp
+      simp only [Option.some.injEq] at hm
+      subst hm
+      simpa using hp
+    · cases hm
+
+/-- the pinned source's treatment: a 20-byte hardware address yields an option no RA can carry -/
+example : wireSafe ({ hopLimit := 64, routerLifetime := 1800 * second, options := [Opt.lla 20 4660] } : RA) = false := by
+  decide
+
 /-- the same for the RA the model builds from the resolved interface -/
 theorem built_wireSafe (n : Nat) (i : RawInterface) (sys : SysState) (fw : Bool)
     (hwf : Props.C02.wfIface i = true) (hvals : wfVals i)
